@@ -50,7 +50,8 @@ func New(ns string, capacity int) (*Env, error) {
 func (e *Env) Serve(h xmpp.Handler) {
 	vs.GoNamed("serve", false, func() {
 		e.ServeErr = e.S.Serve(h)
-		e.ServeDone = true
+		// published as one step (a hand-over that orders what Serve did before it)
+		vs.Atomically(func() { e.ServeDone = true })
 	})
 }
 
